@@ -1,9 +1,10 @@
 (* Entry points of the extracted driver. *)
-From Curies.model Require Export CheckQ W3C CheckD CheckM CheckL.
+From Curies.model Require Export CheckQ W3C CheckD CheckM CheckL CheckR.
 Definition dispatch (entry prop : Z) (case obs : val) : val :=
   (if entry =? 1 then run_query prop case obs
    else if entry =? 20 then run_w3c case obs
    else if entry =? 19 then run_discover case obs
    else if entry =? 5 then run_mutate case obs
    else if entry =? 4 then run_load prop case obs
+   else if entry =? 9 then run_derive prop case obs
    else VList [VInt (-2)])%Z.
